@@ -214,6 +214,54 @@ def string_level(B, rep, n, samples):
     samples.append(dict(level="strings", n=n, sequences=len(WORDS) ** n, symbolic_execution_s=round(time.time() - t0, 2), outcomes=len(r.alts)))
 
 
+def value_to_text(v):
+    """tree value of Engine M -> the notation of exp_to_text / native_tree_text"""
+    while isinstance(v, (BoxV, ValRef)):
+        v = v.v
+    if v.ty == "Expression":
+        if v.variant == "Operator":
+            return value_to_text(v.fields[0])
+        inner = v.fields[0]
+        return {"True": "-true", "False": "-false", "Print": "-print"}.get(inner.variant, inner.variant)
+    if v.ty == "Operator":
+        return "%s(%s)" % (v.variant, ", ".join(value_to_text(x) for x in v.fields))
+    return repr(v)
+
+
+def long_chains(B, rep, tier, samples):
+    """(c) chains far longer than the symbolic bound: k operands joined by one connector must come back as the whole
+    left-nested chain (no prefix, no rejection); concrete inputs executed by Engine M and replayed natively"""
+    import sys
+    sys.setrecursionlimit(max(sys.getrecursionlimit(), 20000))
+    ops = ["-true", "-false", "-print"]
+    n_ob = 0
+    for k in ((33, 65) if tier == "quick" else (33, 64, 65, 129, 257)):
+        for conn, name in (("", "And"), ("-a", "And"), ("-o", "Or"), (",", "List")):
+            words = [ops[i % 3] for i in range(k)]
+            text = (" %s " % conn if conn else " ").join(words)
+            want = words[0]
+            for w in words[1:]:
+                want = "%s(%s, %s)" % (name, want, w)
+            r = B.parse([text])
+            n_ob += 1
+            got = "panic"
+            if len(r.alts) == 1 and is_ok(r.alts[0][1]):
+                got = value_to_text(r.alts[0][1].fields[0][1])
+            elif len(r.alts) == 1 and is_err(r.alts[0][1]):
+                got = "err"
+            rep.query("chain%d:%s" % (k, conn or "implicit"), "unsat" if got == want else "sat", 0.0)
+            if got != want:
+                d, _ = B.native_all([text])[0]
+                nat = native_tree_text(d)
+                if nat == want:
+                    rep.inconclusive.append("long chain of %d operands (%s): model and native build disagree" % (k, conn or "implicit"))
+                else:
+                    rep.violation("grammar:long-chain", "%d operands joined by %r: native gives %s, the grammar gives the left-nested chain of all %d operands" % (
+                        k, conn or "juxtaposition", (nat or "")[:120], k), dict(input=text, expected=want))
+    samples.append(dict(level="long chains", operands=[33, 65] if tier == "quick" else [33, 64, 65, 129, 257], connectors=["", "-a", "-o", ","]))
+    return n_ob
+
+
 def b2z(g):
     return z3.BoolVal(g) if isinstance(g, bool) else g
 
@@ -227,14 +275,16 @@ def run(ctx, rep, tier):
         token_level(B, rep, n, samples)
     for n in range(1, (3 if tier == "quick" else 5) + 1):
         string_level(B, rep, n, samples)
+    long_chains(B, rep, tier, samples)
     cov = B.coverage_common()
     cov.update(explanation="precedence::parser executed symbolically from MIR over token slices of every length 1..%d with "
                "symbolic token kinds; per length, z3 decides acceptance <=> grammar sentence, tree = grammar tree, no prefix "
                "result, no panic, against CYK-style specification tables (whose unambiguity is itself solver-checked)" % nmax,
                bounds=dict(token_sequence_max_len=nmax, token_kinds=G.KINDS),
                string_level="parse(&str) on 1..%d slot-aligned words with symbolically selected spellings of %d words (incl. -and/-or)" % (3 if tier == "quick" else 5, len(WORDS)),
-               outside="longer sequences; primaries with payloads (the atom rule does not inspect them)",
-               samples=samples, evaluations=sum(len(G.KINDS) ** s["n"] for s in samples), distinct_nontrivial=len(samples) * 4)
+               long_chains="concrete chains of 33 and 65 (thorough up to 257) operands per connector: whole left-nested chain returned",
+               outside="longer sequences with mixed operators; primaries with payloads (the atom rule does not inspect them)",
+               samples=samples, evaluations=sum(len(G.KINDS) ** s["n"] for s in samples if "n" in s), distinct_nontrivial=len(samples) * 4)
     rep.coverage = cov
     rep.assumptions = ["winnow 0.6.7 combinators modelled (mirsym/winnow.py); derived Clone/PartialEq modelled structurally",
                        "token-level words map 1:1 to strings for replay: ( ) ! , -a -o -true -false -print"]
